@@ -144,6 +144,12 @@ def build_consistent(r, case, depth=3, nfiles=None, allow_multi=True, dups=True)
             g = governing(d)           # the Manifest of the nearest ancestor directory
             rel = os.path.relpath(p, g) if g else p
             manifests[g][1].append(ET.entry_line('MANIFEST', rel, data, r.sample(GOOD_HASHES, r.randint(0, 2))))
+            # now and then a second reference to the same sub-Manifest: the same line again, or from the top-level Manifest
+            if dups and r.random() < 0.1:
+                g2 = r.choice([g, ''])
+                rel2 = os.path.relpath(p, g2) if g2 else p
+                manifests[g2][1].append(ET.entry_line('MANIFEST', rel2, data, r.sample(GOOD_HASHES, r.randint(0, 2))))
+                case.meta.setdefault('double_references', []).append(p)
     put('Manifest', manifests[''][1])
     case.tree = t
     case.meta.update(dirs=dirs, files=sorted(files), manifests=sorted(written), ignored=sorted(ignored))
